@@ -585,7 +585,8 @@ def run(ctx):
     # histories with several merges of three parents, commit-graph written by dulwich and by git
     records += replay_graph(ctx, "Accel_octo.cfg", 10 ** 9, "three-parent merges, 5 commits, depth 6", every_edge=True)
     # graft points and the shallow file (primary data) with commit-graphs written here or copied in
-    records += replay_graph(ctx, "Accel_graft.cfg", 10 ** 9, "grafts + shallow file + commit-graph, 3 commits, depth 5",
+    records += replay_graph(ctx, ctx.pick("Accel_graft.cfg", "Accel_graft5.cfg"), 10 ** 9,
+                            ctx.pick("grafts + shallow file + commit-graph, 3 commits, depth 4", "grafts + shallow file + commit-graph, 3 commits, depth 5"),
                             every_edge=True)
     large_offset_layout(ctx)
     shallow_clone_layout(ctx)
